@@ -483,9 +483,9 @@ def legit_retry(messages, m, jid, server):
         if m0["from"] == m["from"] and m0["to"] == m["to"] and jid in m0["recipients"]:
             earlier.append(m0)
     if not earlier:
-        # the sender's first message to this group: the library only distributes the sender key to members it had to open a
-        # session with; a member it already had a session with gets the bare group ciphertext and has to ask for a retry
-        return True
+        # the sender's first message to this group carries the sender key for every member (since fix cbb8bc3 also for the
+        # members it already had a session with): nothing but a corrupted copy justifies a retry
+        return False
     # ... or the earlier message did arrive first but its copy was corrupted and its re-sent copy had not come yet
     return any(m0["id"] not in order[:first] or (jid in m0.get("corrupted_first", ()) and order[:first].count(m0["id"]) < 2)
                for m0 in earlier)
